@@ -415,6 +415,13 @@ func init() {
 		rep.Cov["exhaustive"] = exhaustive
 		rep.Cov["depth"] = depth
 		rep.Cov["race_pass"] = racePass(rep, "peers/abmf")
+		sper, sexecs, sex := c07Schedules(rep, pool)
+		if !sex {
+			exhaustive = false
+		}
+		rep.Cov["sequences_over_one_connection_per_request"] = sper
+		rep.Cov["schedules"] = sexecs
+		rep.Cov["exhaustive"] = exhaustive
 		rep.Cov["distinct_outcomes"] = outcomes
 		rep.Cov["method"] = "breadth-first search over sequences of credit-control requests sent by a real go-diameter client over the modelled network to the server started by abmf.OpenServer; alphabet = 4 actions x request types x amounts {0,1,7,balance-1,balance,balance+1,2^31,2^32,2^53+1,2^62+1,2^63-1} x 8 targets (3 accounts, an overdrawn account, an unknown subscriber, unknown rating groups 9, 0 and 2^32-1; the same digits under Subscription-Id-Types other than IMSI), half of the requests under the subscriber's Session-Id with request numbers that recur across rating groups, from two sets of initial balances (small and near 2^62/2^63); reference model = a map of balances; states deduplicated by the stored balances"
 		rep.Assumptions = append(rep.Assumptions, "'no answer' is decided at quiescence of the whole world (every goroutine blocked), not by waiting")
